@@ -254,6 +254,51 @@ swh_c = _alias("significant_waveheight", lambda v, n, m: implies(ge(m(0), 0), eq
 mp_c = _alias("mean_period", lambda v, n, m: implies(Not(eq(m(1), 0, rtol=0, atol=0)), eq(v, _safe_div(m(0), m(1)), rtol=1e-9, atol=1e-12)))
 zcp_c = _alias("zero_crossing_period", lambda v, n, m: implies(And(gt(m(2), 0), ge(m(0), 0)), eq(v, sqrt(_safe_div(m(0), m(2))), rtol=1e-9, atol=1e-12)))
 
+def _bounded_consequences(tier, seed):
+    """algebraic consequences of the defining integrals (linearity, scale laws, Tm02 <= Tm01, period bounds): corollaries of
+    the proved formulas; the inequalities need a Cauchy-Schwarz lemma that is not mechanised, so they are sampled"""
+    import numpy as np
+    from ocean_science_utilities.wavespectra.spectrum import create_1d_spectrum, create_2d_spectrum
+    rng = np.random.default_rng(seed + 13)
+    n = 10 if tier == "quick" else 100
+    fails, samples, evals = [], [], 0
+    for k in range(n):
+        nf = int(rng.integers(3, 15))
+        f = np.sort(rng.uniform(0.0 if k % 3 == 0 else 0.02, 1.0, nf)) + np.arange(nf) * 1e-4
+        if k % 3 == 0:
+            f[0] = 0.0
+        E1 = rng.random((2, nf)) * (rng.random((2, nf)) > 0.2)
+        E2 = rng.random((2, nf))
+
+        def sp(E):
+            return create_1d_spectrum(f, E, np.arange(2) * 3600.0, np.zeros(2), np.zeros(2), depth=np.full(2, np.inf))
+        s1, s2, s12, sc = sp(E1), sp(E2), sp(E1 + E2), sp(2.5 * E1)
+        lo_, hi_ = sorted(rng.uniform(0, 1.0, 2))
+        for (fmin, fmax) in ((0.0, np.inf), (lo_, hi_)):
+            evals += 1
+            ok = True
+            for pw in range(0, 5):
+                m = lambda s: s.frequency_moment(pw, fmin, fmax).values
+                ok = ok and np.allclose(m(s12), m(s1) + m(s2), rtol=1e-9, atol=1e-12) and np.allclose(m(sc), 2.5 * m(s1), rtol=1e-9, atol=1e-12)
+            ok = ok and np.allclose(sc.hm0(fmin, fmax).values, np.sqrt(2.5) * s1.hm0(fmin, fmax).values, rtol=1e-9, atol=1e-12)
+            with np.errstate(all="ignore"):
+                t1, t2 = s1.tm01(fmin, fmax).values, s1.tm02(fmin, fmax).values
+                fin = np.isfinite(t1) & np.isfinite(t2) & (s1.m1(fmin, fmax).values > 0)
+                ok = ok and np.all(t2[fin] <= t1[fin] * (1 + 1e-9))
+                inb = f[(f >= fmin) & (f < fmax)]
+                if len(inb) >= 2 and inb[0] > 0:
+                    ok = ok and np.all(t1[fin] <= 1 / inb[0] * (1 + 1e-9)) and np.all(t2[fin] >= 1 / inb[-1] * (1 - 1e-9))
+                ok = ok and np.allclose(sc.tm01(fmin, fmax).values, t1, rtol=1e-9, equal_nan=True)
+            if not ok:
+                fails.append({"case": k, "band": [float(fmin), float(fmax)], "what": "linearity / scale law / Tm02<=Tm01 / period bound violated"})
+        if len(samples) < 2:
+            samples.append({"case": k, "nf": nf, "f0": float(f[0])})
+    return {"evaluations": evals, "distinct": evals, "failures": fails[:6], "samples": samples,
+            "domain": f"{n} random non-uniform grids (3..14 nodes, every third with f=0), spectra with zero bins, default and random bands, powers 0..4"}
+
+
+BOUNDED = [Bounded("algebraic_consequences", _bounded_consequences)]
+
 CONTRACTS = [direction_step, e_2d, frequency_moment, m0_c, m1_c, m2_c, hm0_c, tm01_c, tm02_c, swh_c, mp_c, zcp_c]
 TRUSTED = ["xarray library contracts of pyvc/models/xr.py (alignment by dimension name, skipna sums, trapezoid integrate, lazy boolean isel)",
            "every real other than the literal np.inf is finite"]
